@@ -6,6 +6,7 @@ use std::io;
 
 pub type Ino = u64;
 
+pub const EPERM: i32 = 1;
 pub const ENOENT: i32 = 2;
 pub const EIO: i32 = 5;
 pub const EBADF: i32 = 9;
@@ -56,6 +57,7 @@ pub struct Meta {
     pub kind: Kind,
     pub len: u64,
     pub mtime_ns: u64,
+    pub nlink: u32,
 }
 
 #[derive(Clone, Debug)]
@@ -272,6 +274,7 @@ impl SimFs {
             kind,
             len,
             mtime_ns: n.mtime_ns,
+            nlink: n.nlink,
         }
     }
 
@@ -459,6 +462,31 @@ impl SimFs {
             self.inodes.remove(&ino);
         }
         Ok(ino)
+    }
+
+    /// link(2): a second name for an existing non-directory (the final symlink is not followed).
+    pub fn link(&mut self, cwd: &str, from: &str, to: &str, now: u64) -> io::Result<Ino> {
+        // calibrated order: the old path is looked up first (ENOENT / ENOTDIR), then the new
+        // path's directory, then "new exists" (EEXIST), and only then "old is a directory" (EPERM)
+        let rf = self.resolve(cwd, from, false)?;
+        let src = rf.ino.ok_or_else(|| err(ENOENT))?;
+        if rf.trailing_slash && self.kind_of(src) != Kind::Dir {
+            return Err(err(ENOTDIR));
+        }
+        let rt = self.resolve(cwd, to, false)?;
+        if rt.ino.is_some() {
+            return Err(err(EEXIST));
+        }
+        if rt.name.is_empty() || rt.trailing_slash {
+            return Err(err(ENOENT));
+        }
+        if self.kind_of(src) == Kind::Dir {
+            return Err(err(EPERM));
+        }
+        self.dir_entries_mut(rt.parent)?.insert(rt.name.clone(), src);
+        self.inodes.get_mut(&rt.parent).unwrap().mtime_ns = now;
+        self.inodes.get_mut(&src).unwrap().nlink += 1;
+        Ok(src)
     }
 
     pub fn rmdir(&mut self, cwd: &str, path: &str, now: u64) -> io::Result<()> {
